@@ -2,7 +2,7 @@
    pset/pset.go (v0) and psetv2/pset.go (v2): ValidateAllSignatures,
    ValidateInputSignatures, validatePartialSignature, getHashAndScriptForSignature,
    verifyScriptForPubKey, with address.GetScriptType, payment.FromScript (StP2WPKH
-   branch) and btcd's txscript.DisasmString (v0.24 tokenizer, one-line form).
+   branch) and btcd's txscript script tokenizer / DisasmString (v0.24, one-line form).
    Follows /repo after the fixes a910e27 and 9415d49 (previous-tx id equality in v0, prevout
    amount in the P2WPKH branch, bounds and empty-signature checks, redeem / witness script
    commitments).  Every remaining unchecked Go index / nil expression yields VPanic <site>.
@@ -17,8 +17,6 @@ Inductive vsite :=
 | VPInputIndex      (* p.Inputs[inputIndex] *)
 | VPSigNil          (* v0: nil *psbt.PartialSig element dereferenced *)
 | VPTxInputIndex    (* v0: p.UnsignedTx.Inputs[inputIndex] *)
-| VPScriptEmpty     (* GetScriptType: script[0] on an empty script *)
-| VPScriptShort     (* GetScriptType: script[2:] on a one-byte script starting with OP_0 *)
 | VPDigestIndex.    (* HashForWitnessV0: tx.Inputs[inIndex] *)
 
 Inductive vres (A : Type) :=
@@ -301,7 +299,9 @@ Definition vs_opname (op : N) : bytes :=
   match nth_error vs_opnames (N.to_nat op) with Some n => n | None => [] end.   (* op = n8 b < 256 *)
 
 (* ScriptTokenizer.Next + disasmOpcode; None = tokenizer error *)
-Fixpoint vs_tokens (fuel : nat) (s : bytes) : option (list bytes) :=
+(* ScriptTokenizer.Next: (opcode, data) per token, data = None for an opcode that carries
+   none (tokenizer.Data() == nil; includes OP_0); None = tokenizer error *)
+Fixpoint vs_tokenize (fuel : nat) (s : bytes) : option (list (N * option bytes)) :=
   match fuel with
   | O => None
   | S f =>
@@ -309,27 +309,34 @@ Fixpoint vs_tokens (fuel : nat) (s : bytes) : option (list bytes) :=
     | [] => Some []
     | b :: r =>
       let op := n8 b in
-      let push (lenlen : nat) : option (list bytes) :=
+      let push (lenlen : nat) : option (list (N * option bytes)) :=
         match p_le lenlen r with
         | None => None
         | Some (n, r1) =>
           if 0x80000000 <=? n then None            (* int32 sign *)
           else match takeN n r1 with
                | None => None
-               | Some (d, r2) => match vs_tokens f r2 with Some ts => Some (to_hex d :: ts) | None => None end
+               | Some (d, r2) => match vs_tokenize f r2 with Some ts => Some ((op, Some d) :: ts) | None => None end
                end
         end in
       if (1 <=? op) && (op <=? 75) then
         match takeN op r with
         | None => None
-        | Some (d, r2) => match vs_tokens f r2 with Some ts => Some (to_hex d :: ts) | None => None end
+        | Some (d, r2) => match vs_tokenize f r2 with Some ts => Some ((op, Some d) :: ts) | None => None end
         end
       else if op =? 76 then push 1%nat
       else if op =? 77 then push 2%nat
       else if op =? 78 then push 4%nat
-      else match vs_tokens f r with Some ts => Some (vs_opname op :: ts) | None => None end
+      else match vs_tokenize f r with Some ts => Some ((op, None) :: ts) | None => None end
     end
   end.
+
+Definition vs_script_tokens (s : bytes) : option (list (N * option bytes)) :=
+  vs_tokenize (S (length s)) s.
+
+(* disasmOpcode, one-line form: hex of the data for pushes, the opcode name otherwise *)
+Definition vs_token_text (t : N * option bytes) : bytes :=
+  match snd t with Some d => to_hex d | None => vs_opname (fst t) end.
 
 Fixpoint vs_join (ts : list bytes) : bytes :=
   match ts with
@@ -339,45 +346,23 @@ Fixpoint vs_join (ts : list bytes) : bytes :=
   end.
 
 Definition vs_disasm (s : bytes) : option bytes :=
-  match vs_tokens (S (length s)) s with Some ts => Some (vs_join ts) | None => None end.
-
-(* strings.Contains *)
-Fixpoint vs_is_prefix (a b : bytes) : bool :=
-  match a, b with
-  | [], _ => true
-  | x :: a', y :: b' => beqb x y && vs_is_prefix a' b'
-  | _ :: _, [] => false
-  end.
-Fixpoint vs_is_infix (a b : bytes) : bool :=
-  vs_is_prefix a b || match b with [] => false | _ :: b' => vs_is_infix a b' end.
-
-(* bytes.Compare *)
-Fixpoint vs_compare (a b : bytes) : comparison :=
-  match a, b with
-  | [], [] => Eq
-  | [], _ :: _ => Lt
-  | _ :: _, [] => Gt
-  | x :: a', y :: b' =>
-      match N.compare (n8 x) (n8 y) with Eq => vs_compare a' b' | c => c end
-  end.
+  match vs_script_tokens s with Some ts => Some (vs_join (map vs_token_text ts)) | None => None end.
 
 (* ---------- address.GetScriptType ---------- *)
 Inductive vstype := StP2WPKH | StP2WSH | StP2TR | StP2SH | StP2PKH | StOther.
 
-Definition vs_script_type (s : bytes) : vres vstype :=
+(* after fix 1acccfe: an empty script is in the default (legacy) class; OP_0 scripts are
+   P2WPKH iff they are 22 bytes long, else in the P2WSH class; no slicing *)
+Definition vs_script_type (s : bytes) : vstype :=
   match s with
-  | [] => VPanic VPScriptEmpty
-  | b :: r =>
+  | [] => StOther
+  | b :: _ =>
     let n := n8 b in
-    if n =? 0 then
-      match r with
-      | [] => VPanic VPScriptShort
-      | _ :: r2 => if (length r2 =? 20)%nat then VOk StP2WPKH else VOk StP2WSH
-      end
-    else if n =? 0x51 then VOk StP2TR
-    else if n =? 0xa9 then VOk StP2SH
-    else if n =? 0x76 then VOk StP2PKH
-    else VOk StOther
+    if n =? 0 then (if (length s =? 22)%nat then StP2WPKH else StP2WSH)
+    else if n =? 0x51 then StP2TR
+    else if n =? 0xa9 then StP2SH
+    else if n =? 0x76 then StP2PKH
+    else StOther
   end.
 
 (* payment.FromScript(script).Script in the StP2WPKH case: buildScript(script[2:], "p2pkh")
@@ -482,8 +467,7 @@ Section Validate.
         | None => VErr                                   (* unreachable: bound checked above *)
         | Some prevout =>
             script <-- vs_pick_script inp (o_script prevout) ;;;
-            ty <-- vs_script_type script ;;;
-            match ty with
+            match vs_script_type script with
             | StP2WSH =>
                 match svi_witscript inp with
                 | None => VErr
@@ -500,8 +484,7 @@ Section Validate.
         match svi_wit inp with
         | Some w =>
             script <-- vs_pick_script inp (o_script w) ;;;
-            ty <-- vs_script_type script ;;;
-            match ty with
+            match vs_script_type script with
             | StP2WPKH =>
                 d <-- vs_digest_v0 p i (vs_p2pkh_code (skipn 2 script)) (o_value w) ht ;;; VOk (d, script)
             | StP2WSH =>
@@ -514,17 +497,21 @@ Section Validate.
         end
     end.
 
-  (* the two needles of verifyScriptForPubKey *)
-  Definition vs_key_in_asm (ck pub asm : bytes) : bool :=
-    vs_is_infix (to_hex ck) asm || vs_is_infix (to_hex (hash160 pub)) asm.
+  (* verifyScriptForPubKey after fix 2d9b577: some data push of the tokenized script equals
+     the compressed key or HASH160(pubKey) *)
+  Definition vs_key_in_pushes (ck pub : bytes) (ts : list (N * option bytes)) : bool :=
+    existsb (fun t => match snd t with
+                      | Some d => bytes_eqb d ck || bytes_eqb d (hash160 pub)
+                      | None => false
+                      end) ts.
 
   Definition vs_verify_script (script pub : bytes) : vres bool :=
     match parse_pk pub with
     | None => VErr
     | Some ck =>
-        match vs_disasm script with
-        | None => VErr
-        | Some asm => VOk (vs_key_in_asm ck pub asm)
+        match vs_script_tokens script with
+        | None => VErr                                   (* DisasmString error = tokenizer error *)
+        | Some ts => VOk (vs_key_in_pushes ck pub ts)
         end
     end.
 
